@@ -24,6 +24,9 @@ const THEORIES: &[&str] = &[
     "p(-9223372036854775808).", "p(- 9223372036854775807 - 1).", "p(- -9223372036854775808).", "exists N$i (N$i = -(-9223372036854775808)).", "p(-9223372036854775808 * -1).", "exists N$i (N$i - 9223372036854775807 > -9223372036854775808).", "exists N$i (N$i * 9223372036854775807 > 0).", "forall X$i X$g X$s (p(X$i, X$g, X$s)).", "forall X$ (p(X$)).", "forall (p).", "forall X.", "exists X (", "p <- q <- r.",
     "p <-> q <-> r.", "not not not not p.", "1 < 2 < 3 < 4 < 5 < 6.", "a < 1 < #sup < #inf.", "p(#inf, #sup, a, 1, X, X$i, X$s).", "forall X$s (X$s = a).", "exists X$s X$i (X$s = X$i).", "p(X$i + a).", "p(a + 1).",
     "forall X (p(X) and (q(X) or (r(X) -> (s(X) <- (t(X) <-> not u(X)))))).", "exists X$i Y$s (Z = X$i and Z = Y$s and p(X$i)).", "exists Y$s X$i (Y$s = Z and X$i = Z and p(X$i + 1)).", "exists X$g Y$s N$i (X$g = Y$s and X$g = N$i and p(N$i)).",
+    // a defined variable of each sort whose definition mentions a variable that is bound again further inside (the substitution has to rename)
+    "forall X$s exists Y$s (Y$s = X$s and forall X$s p(X$s, Y$s)).", "forall X$i exists Y$i (Y$i = X$i and forall X$i p(X$i, Y$i)).", "forall X exists Y (Y = X and forall X p(X, Y)).", "forall X$s exists Y (Y = X$s and exists X$s (p(X$s) and q(Y))).",
+    "exists Y$s (Y$s = X$s and forall X$s (p(X$s) -> q(Y$s))).", "forall X$i exists Y (Y = X$i + 1 and forall X$i (p(X$i) -> q(Y))).", "forall X$s Z$s exists Y$s (Y$s = X$s and exists X$s X1$s (q(X$s, X1$s) and p(Y$s))).",
     "forall X$s (exists N$i (X$s = N$i) -> p(X$s)).", "exists N$i X$s (N$i = X$s).", "exists X$s (X$s = 1 and p(X$s)).", "exists N$i (N$i = a and p(N$i)).", "forall X X X (p(X)).", "exists X$i X$g (X$i = X$g).", "p(f).", "p(n$i).", "p(n$g, n$s).",
 ];
 pub const GUIDES: &[&str] = &[
